@@ -129,6 +129,9 @@ ERROR_CLASSES: dict[str, dict[str, Any]] = {
     "index_after_immediate_y": {"scope": "asm", "text": "cpx #0x02,y"},
     "index_on_long_indirect_x": {"scope": "asm", "text": "lda [0x10],x"},
     "unsupported_width_imm": {"scope": "asm", "text": "lda.l #0x123456"},
+    # no size suffix: the operand's own width has no encoding in this addressing mode
+    "unsuffixed_operand_too_wide": {"scope": "asm", "text": "ldx 0x123456"},
+    "unsuffixed_immediate_too_wide": {"scope": "asm", "text": "lda #0x123456"},
     "unsupported_width_jmp": {"scope": "asm", "text": "jmp.b 0x12"},
     "branch_out_of_range": {"scope": "asm", "text": "bra far_zq\n.dw " + ", ".join(["0"] * 100) + "\nfar_zq:"},
     # exactly one byte beyond the reach of an 8-bit displacement, in each direction
@@ -144,6 +147,10 @@ ERROR_CLASSES: dict[str, dict[str, Any]] = {
     # errors that only surface when the statement is emitted, in a block positioned in RAM (no ROM offset)
     "emit_time_error_in_ram_positioned_block": {"scope": "asm", "text": "*=0x7e2000\nlda.w #undefined_in_ram_zq", "top_only": True},
     "width_error_in_ram_positioned_block": {"scope": "asm", "text": "*=0x7e4000\nnop\nlda.l #0x12", "top_only": True},
+    # many failing statements at once (what forgetting the .include that holds every definition looks like):
+    # however failures are counted, the count must not turn into a zero status
+    "failing_statements_256": {"scope": "asm", "text": "\n".join(f"lda.w missing_{i}_zq" for i in range(256))},
+    "failing_statements_512": {"scope": "asm", "text": "\n".join(f".dw nothere_{i}_zq" for i in range(512))},
     "undefined_inside_nested_expression": {"scope": "asm", "text": ".dw -(2 + undefined_zq) * 3"},
     # Evaluations that abort half-way on the current tree.  Whether these *ought* to be errors is not
     # something C14 states (comparison operators are lexed; a tree that evaluated them would still hold
